@@ -301,6 +301,77 @@ def structure_mutations(raw, password, R, tier):
                     continue
 
 
+def compound_attacks(tier):
+    """yield (description, image): inputs whose hostility lies in several fields together.
+    - count VECTORS of a many-folder archive set as a whole (every entry just under what a per-item validation admits, ...)
+    - packed headers that unpack to packed headers: to themselves, to each other"""
+    import copy
+    import struct
+    import zlib
+
+    from .refcodec import mutate
+
+    for nf in ((60, 400, 1000) if tier != "quick" else (60, 1000)):
+        files = [{"name": f"f{i}", "kind": "file", "data": b"x"} for i in range(nf)]
+        folders = [{"nfiles": 1, "coders": [{"id": "copy"}], "crc": "none"} for _ in range(nf)]
+        raw, _ = write_archive({"files": files, "folders": folders, "header": "raw", "omit_numunpack_if_all_one": False})
+        tree = mutate.parse_to_tree(raw, None)
+        hdrlen = int.from_bytes(raw[20:28], "little")
+        bound = 8 * (hdrlen + 1)
+        vectors = []
+
+        def walk(node, path):
+            if isinstance(node, dict):
+                for k, v in node.items():
+                    if isinstance(v, list) and len(v) >= 2 and all(isinstance(x, int) for x in v):
+                        vectors.append(path + (k,))
+                    else:
+                        walk(v, path + (k,))
+            elif isinstance(node, list):
+                for i, v in enumerate(node):
+                    walk(v, path + (i,))
+
+        walk(tree.get("header") or {}, ("header",))
+        for vp in vectors:
+            for val in (bound - 1, bound // 2, bound * 4 // nf, 1 << 20, (1 << 32) - 1):
+                for drop_rest in (False, True):
+                    t = copy.deepcopy(tree)
+                    node = t
+                    for k in vp[:-1]:
+                        node = node[k]
+                    node[vp[-1]] = [val] * len(node[vp[-1]])
+                    if drop_rest and vp[-1] == "nums":
+                        # nothing after the counts (no Size / CRC section)
+                        parent = t
+                        for k in vp[:-3]:
+                            parent = parent[k]
+                        if isinstance(parent, dict) and "items" in parent:
+                            parent["items"] = parent["items"][:1]
+                    elif drop_rest:
+                        continue
+                    try:
+                        yield (f"{nf} folders: every entry of {'/'.join(map(str, vp[-3:]))} := {val}" + (" (rest dropped)" if drop_rest else ""), mutate.build_from_tree(t))
+                    except Exception:  # noqa
+                        continue
+
+    def seal(body_after_sig: bytes, hdr_off: int, hdr: bytes) -> bytes:
+        start = struct.pack("<QQI", hdr_off, len(hdr), zlib.crc32(hdr))
+        return b"7z\xbc\xaf\x27\x1c\x00\x04" + struct.pack("<I", zlib.crc32(start)) + start + body_after_sig
+
+    def packed_header(packpos: int, size: int) -> bytes:
+        # EncodedHeader: PackInfo(packpos, 1 stream, size) UnpackInfo(1 folder, Copy, unpack size = size, no CRC)
+        assert packpos < 128 and size < 128
+        return bytes([0x17, 0x06, packpos, 0x01, 0x09, size, 0x00, 0x07, 0x0B, 0x01, 0x00, 0x01, 0x01, 0x00, 0x0C, size, 0x00, 0x00])
+
+    h = packed_header(0, 18)
+    assert len(h) == 18
+    yield ("packed header whose packed stream is itself", seal(h, 0, h))
+    a = packed_header(18, 18)      # A (at 0) unpacks the bytes at 18 = B; B unpacks the bytes at 0 = A
+    b = packed_header(0, 18)
+    yield ("two packed headers unpacking to each other", seal(a + b, 0, a))
+    yield ("packed header pointing at itself, end header behind padding", seal(bytes(5) + packed_header(5, 18), 5, packed_header(5, 18)))
+
+
 SEQUENCES = [["getnames", "list", "test", "testzip", "extractall"], ["extractall", "extractall"], ["extract", "extract"], ["testzip", "extractall", "test"],
              ["list", "extract", "reset", "extractall"], ["test", "extract", "testzip"]]
 
